@@ -815,6 +815,26 @@ class C03(SpecProp):
                ('or', ('just', [A, B, A]), ('just', [A, B])), ('lazy', ('just', [A, B]))]
         for n, g in enumerate(iog):
             lines.append(case_line(f'I{n}io', g, ioinp, kind='iomap'))
+        # a SHARED memoized parser that succeeds with a non-fatal error (recovery, validate), abandoned with its alternative and
+        # visited again at the same position — for its output and where none is required (check(), ignored, to_slice): a result
+        # without errors must still mean that the input is in the language
+        A_, B_, E_ = ('just', [A]), ('just', [B]), ('just', [gen.EA])
+        minp = inputs_all(4, [A, B, gen.EA])
+        mn = 0
+        for body in [('recvia', A_, ('to', ('vnat', 9), ('any',))), ('validate', 'always', 5, 1, ('any',)),
+                     ('recskip', A_, ('any',), B_, ('vnat', 7)), ('then', ('validate', ('tokis', A), 6, 1, ('any',)), ('ornot', A_))]:
+            d = ('memo', 55, body)
+            c = ('call', 0)
+            for main in [('or', ('then', c, B_), ('then', c, E_)), ('or', ('ithen', c, B_), ('ithen', c, E_)),
+                         ('ignored', ('or', ('then', c, B_), ('then', c, E_))), ('toslice', ('or', ('then', c, B_), ('then', c, E_))),
+                         ('choices', [('then', c, B_), ('then', ('ornot', ('ignored', c)), E_), ('ignored', c)]),
+                         ('then', ('rewind', ('ignored', c)), ('ignored', c))]:
+                for mode in ('parse', 'check'):
+                    for kd in ('str', 'slice'):
+                        if kd == 'slice' and 'toslice' in gen.ops_of(main):
+                            continue
+                        lines.append(case_line(f'M{mn}', main, minp, kind=kd, mode=mode, defs=[d]))
+                        mn += 1
         # the contract is the same through check(): every grammar that can succeed with non-fatal errors (recovery, validate)
         # is also run in check mode — an error-free check() must mean exactly what an error-free parse() means
         extra = []
